@@ -351,7 +351,7 @@ func main() {
 		// ---- corruptions
 		nbits := len(mb.Flags) * 8
 		for b := 0; b < nbits; b++ {
-			if !(nbits <= 8 || rng.Chance(500/nbits) || run.Thorough()) {
+			if !(nbits <= 8 || rng.Chance(500/nbits) || (run.Thorough() && (nbits <= 16 || rng.Chance(30)))) {
 				continue
 			}
 			c := cloneMB(mb, root)
@@ -359,7 +359,7 @@ func main() {
 			doCheck(c, root, fmt.Sprintf("flag-bit:%d", b), true)
 		}
 		for k := range mb.Hashes {
-			if !(len(mb.Hashes) <= 2 || rng.Chance(250/len(mb.Hashes)) || run.Thorough()) {
+			if !(len(mb.Hashes) <= 2 || rng.Chance(250/len(mb.Hashes)) || (run.Thorough() && rng.Chance(50))) {
 				continue
 			}
 			c := cloneMB(mb, root)
@@ -490,7 +490,7 @@ func main() {
 	maxN := 33
 	allUpTo := 4
 	if run.Thorough() {
-		allUpTo = 8
+		allUpTo = 7
 	}
 	for n := 1; n <= maxN; n++ {
 		var pats [][]bool
@@ -511,7 +511,7 @@ func main() {
 			pats = append(pats, none, all, first, last)
 			extra := 2
 			if run.Thorough() {
-				extra = 40
+				extra = 10
 			}
 			for k := 0; k < extra*run.Scale; k++ {
 				p := make([]bool, n)
